@@ -1,16 +1,15 @@
 (* the completeness statement unfolded once *)
 Theorem C06_u8_overflowing_add_complete_unfolded : forall a b,
   0 <= a < 2 ^ 8 -> 0 <= b < 2 ^ 8 ->
-  outputs (vm_run CFG (honest CFG) 0 code_u8_overflowing_add 200 0
-                  (init_st entry_u8_overflowing_add) (init_mem [RC0; a; b])) 3
-  = Some [Some (RC0 + 1);
-          Some (if a + b <? 2 ^ 8 then 0 else 1);
-          Some (if a + b <? 2 ^ 8 then a + b else a + b - 2 ^ 8)].
+  outputs (run_honest code_u8_overflowing_add entry_u8_overflowing_add 200 [RC0; a; b]) 3
+  = Some (if a + b <? 2 ^ 8
+          then [Some (RC0 + 1); Some 0; Some (a + b)]
+          else [Some (RC0 + 1); Some 1; Some (a + b - 2 ^ 8)]).
 Proof.
   intros a b Ha Hb.
   pose proof (u8_overflowing_add_complete a b Ha Hb ltac:(discriminate)) as H.
   unfold run_outputs, sp_uarith, uadd in H. cbn [fst snd] in H.
-  destruct (a + b <? 2 ^ 8); exact H.
+  destruct (a + b <? 2 ^ 8); cbn [List.length map] in H; exact H.
 Qed.
 
 (* non-vacuity / what the objects look like: 200 + 100 on u8 *)
